@@ -52,6 +52,7 @@ pub fn sim_cfg_of(plan: &Plan) -> SimCfg {
         stuck_ns: (20 * plan.cfg.cleanup_ms * 1_000_000).max(30 * 1_000_000_000),
         stalls: plan.sim.stalls.iter().map(|s| Stall { at_step: s.at_step, name_contains: s.task.clone(), for_steps: s.for_steps }).collect(),
         epoch_ns: crate::gen::EPOCH_S * 1_000_000_000 + plan.sim.epoch_phase_ns,
+        stall_after_recv_permille: plan.sim.stall_after_recv_permille,
     }
 }
 
@@ -83,6 +84,7 @@ pub fn execute(plan: &Plan, choices: Option<Vec<u32>>, record: bool, props: &[St
     faults.insert("eager_clock_advance".to_string(), out.counters.eager_advances);
     faults.insert("clock_jump".to_string(), out.counters.clock_jumps);
     faults.insert("stall_skips".to_string(), out.counters.stall_skips);
+    faults.insert("worker_stalled_right_after_receiving".to_string(), out.counters.stalls_after_recv);
     faults.insert("blocks".to_string(), out.counters.blocks);
     faults.insert("select_arm_choices".to_string(), out.counters.select_choices);
     // fault kinds that actually fired in this run, counted from the history
@@ -524,6 +526,11 @@ pub fn minimise(plan: &Plan, v: &Violation, props: &[String], budget: usize) -> 
     simplifications.push(Box::new(|p| {
         let had = !p.sim.stalls.is_empty();
         p.sim.stalls.clear();
+        had
+    }));
+    simplifications.push(Box::new(|p| {
+        let had = p.sim.stall_after_recv_permille > 0;
+        p.sim.stall_after_recv_permille = 0;
         had
     }));
     simplifications.push(Box::new(|p| {
